@@ -23,6 +23,7 @@ type Clause struct {
 }
 
 type LoopSpec struct {
+	Steps      []Clause // per-iteration claims: checked at every back edge only (never assumed, not checked at entry)
 	Invariants []Clause
 	Modifies   []string // extra explicit frame (unused: computed syntactically)
 	Decreases  *Clause
@@ -588,6 +589,8 @@ func (cs *ContractSet) parseFile(fset *token.FileSet, f *ast.File, pkgPath strin
 				switch fs[1] {
 				case "invariant":
 					ls.Invariants = append(ls.Invariants, mkClause(it2, "invariant"))
+				case "step":
+					ls.Steps = append(ls.Steps, mkClause(it2, "step"))
 				case "decreases":
 					c := mkClause(it2, "decreases")
 					ls.Decreases = &c
